@@ -5,10 +5,13 @@ MANIFEST.json is generated from this table by py/gen_manifest.py.
 """
 
 ADV = "A-min,B-l0,C-default"
-COVER = "A-min,B-l0,C-default,D-stall12,E-files2,F-anygc,G-mand4-stall2,H-mem64-mand1"
+COVER = "A-min,B-l0,C-default,D-stall12,E-files2,F-anygc,G-mand4-stall2,H-mem64-mand1,I-bytes2k,J-stallbytes"
 
 
 ING = "ing:a,ing:-a,ing:a+b,ing:-a+ab-b,ing:AB,ing:a2-,C,C*,R,V"
+# ... plus two shapes whose timestamp range straddles earlier files (level-0 files that cannot be
+# ordered) and two ingests that park on the level-0 stall until a compaction step makes room
+ING_STALL = "ing:a,ing:-a,ing:a+b,ing:-a+ab-b,ing:AB,ing:a2-,ing:a~c,ing:-ab~c,ing!:a+b,ing!:a~c,C,C*,R,V"
 ING_SCAN = "ing:a,ing:-a+ab-b,ing:AB,ing:a+b,scan:0,scan:8,walk:0:next,walk:0:prev,walk:0:seek(ab),C,C*,V"
 
 
@@ -33,13 +36,13 @@ CHECKS = {
         "technique": "explicit-state bounded model checking of the real KeyValueStore: exhaustive enumeration of operation sequences (client ops x single-stepped flush/compaction/GC/verifier/reopen) against a sequential map model",
         "design_ref": "DESIGN.md 3.1, 4 (C01)",
         "jobs": {
-            "quick": [tree("C01", 5, 3), seq("C01", 4), seq("C01", 8, "C-default", ["--alphabet", "put:a,put:ab,put:b,R", "--salts", 3, "--only-seed", "empty"])],
-            "thorough": [tree("C01", 7, 5, ["--min-depth", 6, "--budget", 2400], timeout=6000), seq("C01", 5), seq("C01", 4, COVER),
+            "quick": [tree("C01", 5, 3, alphabet=ING_STALL), seq("C01", 4), seq("C01", 8, "C-default", ["--alphabet", "put:a,put:ab,put:b,R", "--salts", 3, "--only-seed", "empty"])],
+            "thorough": [tree("C01", 7, 5, ["--min-depth", 6, "--budget", 2400], alphabet=ING_STALL, timeout=6000), seq("C01", 5), seq("C01", 4, COVER),
                          seq("C01", 9, "C-default,A-min", ["--alphabet", "put:a,put:ab,put:b,del:ab,R", "--salts", 3, "--only-seed", "empty"]),
                          seq("C01", 7, "A-min,B-l0", ["--alphabet", "put:a,del:a,put:b,puthuge:ab,F,C,C*", "--salts", 2, "--only-seed", "empty"])],
         },
         "text": "Every history of <= d steps over a 13-symbol alphabet (3 prefix-sharing keys; put/del/batches; one flush-loop iteration; one compaction-loop iteration; compact-until-idle; clean reopen; verifier pass), from the empty store and from 3 seeded deep states, in 3 adversarial configuration rows (quick, d=4) / 8 rows (thorough, d=5 resp. 4), is executed on the real lsmtk code and every probe key is read back and compared with a BTreeMap model; no fault-free step may return an error. This is bounded exhaustive model checking of the implementation itself, not sampling.",
-        "note": "A second job goes deeper on a recovery-oriented sub-alphabet {put a, put ab, put b, reopen} (every reopen turns the log into one SST and recovery re-derives all levels from key/timestamp overlap): every history <= 8, with 3 value salts so that both orders of the digest-sorted manifest listing are driven. Trusted: the single-step hooks make one loop iteration atomic (no interleaving inside a flush or compaction -- C06/C07/C20 cover schedules); 3 keys; option values of the grid; histories longer than the depth only through the seeds. A further job runs the same oracles on a bare LsmTree fed through LsmTree::ingest with externally built SSTs (ten file shapes: single puts and tombstones, whole-range files, a 5 KiB value, two versions of a key in one file; timestamps grow with the step), compaction steps, reopen and verifier passes, from the empty tree and from four seeded states (stacked oldest levels with and without a pending level-0 file, a lower-level file whose timestamps straddle an overlapping upper-level file, before and after reopening).",
+        "note": "A second job goes deeper on a recovery-oriented sub-alphabet {put a, put ab, put b, reopen} (every reopen turns the log into one SST and recovery re-derives all levels from key/timestamp overlap): every history <= 8, with 3 value salts so that both orders of the digest-sorted manifest listing are driven. Trusted: the single-step hooks make one loop iteration atomic (no interleaving inside a flush or compaction -- C06/C07/C20 cover schedules); 3 keys; option values of the grid; histories longer than the depth only through the seeds. A further job runs the same oracles on a bare LsmTree fed through LsmTree::ingest with externally built SSTs (ten file shapes: single puts and tombstones, whole-range files, a 5 KiB value, two versions of a key in one file; timestamps grow with the step), compaction steps, reopen and verifier passes, from the empty tree and from four seeded states (stacked oldest levels with and without a pending level-0 file, a lower-level file whose timestamps straddle an overlapping upper-level file, before and after reopening). Where the alphabet says so (C01 C04 C08 C20) it also contains two file shapes whose timestamp range straddles earlier files and ingests that park on the level-0 stall (helper thread, completed by whichever later compaction step makes room; a parked flush F! does the same for the store subject): the interplay of a stalled writer with compactions and GCs is then part of the sequential state space.",
     },
     "C03": {
         "level": "model_checking",
@@ -50,15 +53,17 @@ CHECKS = {
             "thorough": [tree("C03", 4, 2, ["--scan-len-full", 3, "--scan-len-rest", 2], timeout=6000), seq("C03", 4, "B-l0,C-default,E-files2", ["--scan-len-full", 4, "--scan-len-rest", 3]), seq("C03", 3, "A-min,D-stall12", ["--scan-len-full", 3, "--scan-len-rest", 2])],
         },
         "text": "At the end of every history (as C01, one level shallower) a fresh KeyValueStore::range_scan is opened for each of the 25 combinations of unbounded/included/excluded bounds over {a,b} (including empty and inverted ranges) and every program of up to L calls over {next, prev, seek_to_first, seek_to_last, seek(5 targets)} is run on it; the observation after the last call must equal a vector cursor over the model restricted to the bounds.",
-        "note": "Reference movement semantics are those of sst::reference::ReferenceCursor (positions -1..n, saturating). Per bound pair: every program <= 2 from a fresh cursor, and every program <= L that begins with an absolute positioning call, chained on one cursor and compared after every call (L = 3 for three representative bound pairs and 2 for the rest in the quick tier; 4/3 thorough). The program tree is walked once per distinct read signature (per-component entries up to order-preserving renaming of timestamps), which is exact for reads. A further job runs the same oracles on a bare LsmTree fed through LsmTree::ingest with externally built SSTs (ten file shapes: single puts and tombstones, whole-range files, a 5 KiB value, two versions of a key in one file; timestamps grow with the step), compaction steps, reopen and verifier passes, from the empty tree and from four seeded states (stacked oldest levels with and without a pending level-0 file, a lower-level file whose timestamps straddle an overlapping upper-level file, before and after reopening).",
+        "note": "Reference movement semantics are those of sst::reference::ReferenceCursor (positions -1..n, saturating). Per bound pair: every program <= 2 from a fresh cursor, and every program <= L that begins with an absolute positioning call, chained on one cursor and compared after every call (L = 3 for three representative bound pairs and 2 for the rest in the quick tier; 4/3 thorough). The program tree is walked once per distinct read signature (per-component entries up to order-preserving renaming of timestamps), which is exact for reads. A further job runs the same oracles on a bare LsmTree fed through LsmTree::ingest with externally built SSTs (ten file shapes: single puts and tombstones, whole-range files, a 5 KiB value, two versions of a key in one file; timestamps grow with the step), compaction steps, reopen and verifier passes, from the empty tree and from four seeded states (stacked oldest levels with and without a pending level-0 file, a lower-level file whose timestamps straddle an overlapping upper-level file, before and after reopening). Where the alphabet says so (C01 C04 C08 C20) it also contains two file shapes whose timestamp range straddles earlier files and ingests that park on the level-0 stall (helper thread, completed by whichever later compaction step makes room; a parked flush F! does the same for the store subject): the interplay of a stalled writer with compactions and GCs is then part of the sequential state space.",
     },
     "C02": {
         "level": "fault_enumeration",
         "technique": "exhaustive crash-point and single-fault enumeration: in-process syscall journal of the real store, every journal prefix (x loss variants of unsynced writes) rebuilt as a directory image and recovered by the real KeyValueStore::open",
         "design_ref": "DESIGN.md 3.2, 4 (C02)",
         "jobs": {
-            "quick": [{"ws": "harness", "bin": "crash_store", "args": ["--prop", "C02", "--depth", 3, "--cfgs", "A-min,B-l0"], "timeout": 3000}],
-            "thorough": [{"ws": "harness", "bin": "crash_store", "args": ["--prop", "C02", "--depth", 4, "--cfgs", "A-min,B-l0,C-default,H-mem64-mand1"], "timeout": 6000}],
+            "quick": [{"ws": "harness", "bin": "crash_store", "args": ["--prop", "C02", "--depth", 3, "--cfgs", "A-min,B-l0"], "timeout": 3000},
+                      {"ws": "loomh", "bin": "loom_log", "args": ["--prop", "C02"], "timeout": 1200}],
+            "thorough": [{"ws": "harness", "bin": "crash_store", "args": ["--prop", "C02", "--depth", 4, "--cfgs", "A-min,B-l0,C-default,H-mem64-mand1"], "timeout": 6000},
+                         {"ws": "loomh", "bin": "loom_log", "args": ["--prop", "C02"], "timeout": 10000}],
         },
         "text": "For every history of <= d steps (quick 3, thorough 4) over a 10-symbol alphabet plus every prefix of 4 curated 10-12 step histories, the real store runs under an in-binary interposer that journals every mutating system call; for every crash point inside the last step (earlier steps are the shorter histories) the directory image is rebuilt from the journal prefix, in the persistence model where every completed call persists and in every variant that loses trailing unsynced writes of any subset of files, and recovered by the real open; reads must match the acknowledged writes (plus, optionally, the whole in-flight write), open must not fail or panic, and the store must accept a further write, flush and compaction. Every single EIO, ENOSPC and short write at every mutating call of the last step is injected too: no panic, and an operation that returns Ok counts as acknowledged.",
         "note": "Crash granularity is the system call; directory operations persist on return (the property's model). The journal model is validated against the real directory after every history. Torn writes inside one call are C09/C12/C13's business. Double faults are not explored.",
@@ -81,13 +86,13 @@ CHECKS = {
         "technique": "explicit-state bounded model checking of the real store (every history <= d) with the three-way setsum balance recomputed from the files after every history, plus the same oracle on every crash image of the crash explorer",
         "design_ref": "DESIGN.md 4 (C04)",
         "jobs": {
-            "quick": [tree("C04", 4, 3), seq("C04", 4), {"ws": "harness", "bin": "crash_store", "args": ["--prop", "C04", "--depth", 3, "--cfgs", "A-min", "--no-faults"], "timeout": 3000},
+            "quick": [tree("C04", 5, 4, alphabet=ING_STALL, cfgs="A-min,B-l0"), seq("C04", 4), {"ws": "harness", "bin": "crash_store", "args": ["--prop", "C04", "--depth", 3, "--cfgs", "A-min", "--no-faults"], "timeout": 3000},
                       {"ws": "harness", "bin": "tamper", "args": [], "timeout": 3000}],
-            "thorough": [tree("C04", 6, 4), seq("C04", 5), seq("C04", 4, COVER), {"ws": "harness", "bin": "crash_store", "args": ["--prop", "C04", "--depth", 4, "--cfgs", "A-min,B-l0", "--no-faults"], "timeout": 6000},
+            "thorough": [tree("C04", 6, 5, alphabet=ING_STALL), seq("C04", 5), seq("C04", 4, COVER), {"ws": "harness", "bin": "crash_store", "args": ["--prop", "C04", "--depth", 4, "--cfgs", "A-min,B-l0", "--no-faults"], "timeout": 6000},
                          {"ws": "harness", "bin": "tamper", "args": [], "timeout": 6000}],
         },
         "text": "After every history of <= d steps (manifest rollover ratio 1 so that fragments roll constantly) all manifest fragments are parsed independently of the store: every transaction must satisfy I = O + D, D = removed - added, I = previous O across fragments, every roll-up must list exactly the accumulated set, the last O must equal the sum of the listed digests and the set the live tree lists, and every listed SST's recorded setsum must equal the setsum recomputed from its entries; ManifestVerifier must accept every fragment and LsmVerifier passes (the V step) must not report corruption. The same oracle runs on every recovered crash image (all crash points of the last step, both persistence models).",
-        "note": "Reject half (tamper job): three curated histories (one manifest fragment per transaction); every single hex digit of every +, -, I, O, D digest of every edit of every fragment changed (crc fixed, and crc stale), and each of the first 8 entries of every compaction / GC output dropped (newest version of its key), duplicated as an invented older version, or modified -- SST rebuilt by the real builder and renamed everywhere, digests left alone and, separately, the whole I/O/D chain re-derived so that only the data-level GC check can object: ManifestVerifier, Manifest::verify and LsmVerifier must refuse every one of the ~33 k tampered copies and accept the untampered one. Not tampered: the roll-up of the oldest fragment present (nothing to compare it with) and outputs that re-create an input byte for byte. Depth and alphabet of the accept half as C01. A further job runs the same oracles on a bare LsmTree fed through LsmTree::ingest with externally built SSTs (ten file shapes: single puts and tombstones, whole-range files, a 5 KiB value, two versions of a key in one file; timestamps grow with the step), compaction steps, reopen and verifier passes, from the empty tree and from four seeded states (stacked oldest levels with and without a pending level-0 file, a lower-level file whose timestamps straddle an overlapping upper-level file, before and after reopening).",
+        "note": "Reject half (tamper job): three curated histories (one manifest fragment per transaction); every single hex digit of every +, -, I, O, D digest of every edit of every fragment changed (crc fixed, and crc stale), and each of the first 8 entries of every compaction / GC output dropped (newest version of its key), duplicated as an invented older version, or modified -- SST rebuilt by the real builder and renamed everywhere, digests left alone and, separately, the whole I/O/D chain re-derived so that only the data-level GC check can object: ManifestVerifier, Manifest::verify and LsmVerifier must refuse every one of the ~33 k tampered copies and accept the untampered one. Not tampered: the roll-up of the oldest fragment present (nothing to compare it with) and outputs that re-create an input byte for byte. Depth and alphabet of the accept half as C01. A further job runs the same oracles on a bare LsmTree fed through LsmTree::ingest with externally built SSTs (ten file shapes: single puts and tombstones, whole-range files, a 5 KiB value, two versions of a key in one file; timestamps grow with the step), compaction steps, reopen and verifier passes, from the empty tree and from four seeded states (stacked oldest levels with and without a pending level-0 file, a lower-level file whose timestamps straddle an overlapping upper-level file, before and after reopening). Where the alphabet says so (C01 C04 C08 C20) it also contains two file shapes whose timestamp range straddles earlier files and ingests that park on the level-0 stall (helper thread, completed by whichever later compaction step makes room; a parked flush F! does the same for the store subject): the interplay of a stalled writer with compactions and GCs is then part of the sequential state space.",
     },
     "C05": {
         "level": "model_checking",
@@ -98,7 +103,7 @@ CHECKS = {
             "thorough": [tree("C05", 6, 4), seq("C05", 5), seq("C05", 4, "A-min,B-l0,F-anygc,G-mand4-stall2")],
         },
         "text": "For every history of <= d steps over an alphabet with 1.5 KiB values and 4 KiB target files (so that compaction outputs split, also inside one key's version run) whose last step is a compaction, every entry (key, timestamp, value-or-tombstone) of every manifest-listed SST is dumped before and after the step. Unless the oldest level changed, the multisets must be equal. For a garbage collection nothing may be invented, a dropped value must have at least N newer entries of its key (versions = N), a dropped tombstone must not expose an older retained value, and the newest entry of every key must survive; with any(versions=1, ttl) at now=0 no value may be dropped.",
-        "note": "The GC oracle is a conjunction of safety conditions implied by every reading of the policy documentation; retaining more than the policy requires is always allowed. A further job runs the same oracles on a bare LsmTree fed through LsmTree::ingest with externally built SSTs (ten file shapes: single puts and tombstones, whole-range files, a 5 KiB value, two versions of a key in one file; timestamps grow with the step), compaction steps, reopen and verifier passes, from the empty tree and from four seeded states (stacked oldest levels with and without a pending level-0 file, a lower-level file whose timestamps straddle an overlapping upper-level file, before and after reopening).",
+        "note": "The GC oracle is a conjunction of safety conditions implied by every reading of the policy documentation; retaining more than the policy requires is always allowed. A further job runs the same oracles on a bare LsmTree fed through LsmTree::ingest with externally built SSTs (ten file shapes: single puts and tombstones, whole-range files, a 5 KiB value, two versions of a key in one file; timestamps grow with the step), compaction steps, reopen and verifier passes, from the empty tree and from four seeded states (stacked oldest levels with and without a pending level-0 file, a lower-level file whose timestamps straddle an overlapping upper-level file, before and after reopening). Where the alphabet says so (C01 C04 C08 C20) it also contains two file shapes whose timestamp range straddles earlier files and ingests that park on the level-0 stall (helper thread, completed by whichever later compaction step makes room; a parked flush F! does the same for the store subject): the interplay of a stalled writer with compactions and GCs is then part of the sequential state space.",
     },
     "C06": {
         "level": "model_checking",
@@ -124,18 +129,18 @@ CHECKS = {
                          {"ws": "harness", "bin": "sched_store", "args": ["--prop", "C07"], "timeout": 10000}],
         },
         "text": "The alphabet adds 'open a scan and keep it' (two bound pairs) and cursor movements on kept cursors (next, prev, seek) to writes, flush, compaction, compact-until-idle and verifier passes; every sequence of <= d steps is run; each kept cursor must show exactly what a vector cursor over the model AT OPEN TIME shows, every movement must return Ok, nothing may panic, and no released skiplist node may be dereferenced (allocation registry).",
-        "note": "seq_store: events happen between cursor calls; the SST cache is off in row A so that a cached table cannot mask a retired file. loom_kvs C07: the main thread opens a scan over a snapshot that spans an SST and the memtable and walks it forward and backward while other threads put/delete, run a flush-loop iteration and compaction-loop iterations (4 harnesses, preemption bounds 1-3 completed): every walk must equal the state at open, every call must succeed, and the allocation registry must see no released skiplist node dereferenced. A further job runs the same oracles on a bare LsmTree fed through LsmTree::ingest with externally built SSTs (ten file shapes: single puts and tombstones, whole-range files, a 5 KiB value, two versions of a key in one file; timestamps grow with the step), compaction steps, reopen and verifier passes, from the empty tree and from four seeded states (stacked oldest levels with and without a pending level-0 file, a lower-level file whose timestamps straddle an overlapping upper-level file, before and after reopening).",
+        "note": "seq_store: events happen between cursor calls; the SST cache is off in row A so that a cached table cannot mask a retired file. loom_kvs C07: the main thread opens a scan over a snapshot that spans an SST and the memtable and walks it forward and backward while other threads put/delete, run a flush-loop iteration and compaction-loop iterations (4 harnesses, preemption bounds 1-3 completed): every walk must equal the state at open, every call must succeed, and the allocation registry must see no released skiplist node dereferenced. A further job runs the same oracles on a bare LsmTree fed through LsmTree::ingest with externally built SSTs (ten file shapes: single puts and tombstones, whole-range files, a 5 KiB value, two versions of a key in one file; timestamps grow with the step), compaction steps, reopen and verifier passes, from the empty tree and from four seeded states (stacked oldest levels with and without a pending level-0 file, a lower-level file whose timestamps straddle an overlapping upper-level file, before and after reopening). Where the alphabet says so (C01 C04 C08 C20) it also contains two file shapes whose timestamp range straddles earlier files and ingests that park on the level-0 stall (helper thread, completed by whichever later compaction step makes room; a parked flush F! does the same for the store subject): the interplay of a stalled writer with compactions and GCs is then part of the sequential state space.",
     },
     "C08": {
         "level": "model_checking",
         "technique": "explicit-state bounded model checking of histories with verifier passes and reopen-time orphan clean-up (file-presence invariant + read-back), plus exhaustive crash points inside verifier passes and trash moves",
         "design_ref": "DESIGN.md 4 (C08)",
         "jobs": {
-            "quick": [tree("C08", 4, 3), seq("C08", 5), {"ws": "harness", "bin": "crash_store", "args": ["--prop", "C08", "--depth", 3, "--cfgs", "A-min", "--no-faults"], "timeout": 3000}],
-            "thorough": [tree("C08", 6, 4), seq("C08", 6), {"ws": "harness", "bin": "crash_store", "args": ["--prop", "C08", "--depth", 4, "--cfgs", "A-min,B-l0", "--no-faults"], "timeout": 6000}],
+            "quick": [tree("C08", 4, 3, alphabet=ING_STALL), seq("C08", 5), {"ws": "harness", "bin": "crash_store", "args": ["--prop", "C08", "--depth", 3, "--cfgs", "A-min", "--no-faults"], "timeout": 3000}],
+            "thorough": [tree("C08", 6, 4, alphabet=ING_STALL), seq("C08", 6), {"ws": "harness", "bin": "crash_store", "args": ["--prop", "C08", "--depth", 4, "--cfgs", "A-min,B-l0", "--no-faults"], "timeout": 6000}],
         },
         "text": "Every history of <= d steps over writes, flush, compaction, compact-until-idle, reopen and verifier passes: after the last step every SST the live version lists must be present in sst/, and all point reads must match the model (so a verifier pass or orphan clean-up that removed a needed file is seen at the next reopen/read). The crash explorer additionally cuts every verifier pass, compaction and reopen at every system call (both persistence models), reopens and reads back.",
-        "note": "Reader snapshots held across retirement are C07's business; log files needed for unreplayed writes are covered by the read-back after reopen. A further job runs the same oracles on a bare LsmTree fed through LsmTree::ingest with externally built SSTs (ten file shapes: single puts and tombstones, whole-range files, a 5 KiB value, two versions of a key in one file; timestamps grow with the step), compaction steps, reopen and verifier passes, from the empty tree and from four seeded states (stacked oldest levels with and without a pending level-0 file, a lower-level file whose timestamps straddle an overlapping upper-level file, before and after reopening).",
+        "note": "Reader snapshots held across retirement are C07's business; log files needed for unreplayed writes are covered by the read-back after reopen. A further job runs the same oracles on a bare LsmTree fed through LsmTree::ingest with externally built SSTs (ten file shapes: single puts and tombstones, whole-range files, a 5 KiB value, two versions of a key in one file; timestamps grow with the step), compaction steps, reopen and verifier passes, from the empty tree and from four seeded states (stacked oldest levels with and without a pending level-0 file, a lower-level file whose timestamps straddle an overlapping upper-level file, before and after reopening). Where the alphabet says so (C01 C04 C08 C20) it also contains two file shapes whose timestamp range straddles earlier files and ingests that park on the level-0 stall (helper thread, completed by whichever later compaction step makes room; a parked flush F! does the same for the store subject): the interplay of a stalled writer with compactions and GCs is then part of the sequential state space.",
     },
     "C13": {
         "level": "model_checking",
@@ -190,11 +195,11 @@ CHECKS = {
         "technique": "explicit-state search of every reachable stall state (sequential, every threshold row) plus stateless model checking under loom of writer + flush loop + real compaction loops with the deadlock detector as oracle",
         "design_ref": "DESIGN.md 4 (C20)",
         "jobs": {
-            "quick": [tree("C20", 5, 3), seq("C20", 5, "A-min,B-l0,E-files2,G-mand4-stall2"), {"ws": "loomh", "bin": "loom_kvs", "args": ["--prop", "C20"], "timeout": 1200}],
-            "thorough": [tree("C20", 6, 4), seq("C20", 6, COVER), {"ws": "loomh", "bin": "loom_kvs", "args": ["--prop", "C20"], "timeout": 10000}],
+            "quick": [tree("C20", 5, 3, alphabet=ING_STALL, cfgs="A-min,B-l0,I-bytes2k,J-stallbytes"), seq("C20", 5, "A-min,B-l0,E-files2,G-mand4-stall2,I-bytes2k,J-stallbytes"), {"ws": "loomh", "bin": "loom_kvs", "args": ["--prop", "C20"], "timeout": 1200}],
+            "thorough": [tree("C20", 6, 4, alphabet=ING_STALL, cfgs="A-min,B-l0,C-default,I-bytes2k,J-stallbytes"), seq("C20", 6, COVER), {"ws": "loomh", "bin": "loom_kvs", "args": ["--prop", "C20"], "timeout": 10000}],
         },
         "text": "Sequential: in every state reached by a history of <= d steps (flush is only enabled when it would not park) in which level 0 holds back ingest, running the compaction loop until idle must end the stall within 64 compactions; a state that is stalled with no selectable compaction is a deadlock witness (configuration + history). Concurrent: a writer, one flush-loop iteration that has to ingest into a level 0 at the stall threshold, and 1-2 real compaction loops (released by a stop request once writer and flush are through); loom reports any execution in which every thread is parked.",
-        "note": "Deadlock-freedom inside the bounds, not fair termination; thresholds from the grid rows; one store open per loom execution limits the quick tier to preemption bound 1-2. A further job runs the same oracles on a bare LsmTree fed through LsmTree::ingest with externally built SSTs (ten file shapes: single puts and tombstones, whole-range files, a 5 KiB value, two versions of a key in one file; timestamps grow with the step), compaction steps, reopen and verifier passes, from the empty tree and from four seeded states (stacked oldest levels with and without a pending level-0 file, a lower-level file whose timestamps straddle an overlapping upper-level file, before and after reopening).",
+        "note": "Deadlock-freedom inside the bounds, not fair termination; thresholds from the grid rows; one store open per loom execution limits the quick tier to preemption bound 1-2. A further job runs the same oracles on a bare LsmTree fed through LsmTree::ingest with externally built SSTs (ten file shapes: single puts and tombstones, whole-range files, a 5 KiB value, two versions of a key in one file; timestamps grow with the step), compaction steps, reopen and verifier passes, from the empty tree and from four seeded states (stacked oldest levels with and without a pending level-0 file, a lower-level file whose timestamps straddle an overlapping upper-level file, before and after reopening). Where the alphabet says so (C01 C04 C08 C20) it also contains two file shapes whose timestamp range straddles earlier files and ingests that park on the level-0 stall (helper thread, completed by whichever later compaction step makes room; a parked flush F! does the same for the store subject): the interplay of a stalled writer with compactions and GCs is then part of the sequential state space.",
     },
     "C14": {
         "level": "exploration",
@@ -266,7 +271,7 @@ CHECKS = {
     },
 }
 
-HOOK_COMMITS = ["78dca42", "83c0526", "7e7e701", "cedc0ca", "1e0b4ae"]
+HOOK_COMMITS = ["78dca42", "83c0526", "7e7e701", "cedc0ca", "1e0b4ae", "49a3800"]
 
 ENGINES = [
     {"name": "damagemc", "path": "harness/damagemc", "serves_properties": ["C09"], "kind_free_text": "exhaustive single (and paired) damage of finished SST / log / manifest files, read programs compared with the pristine observation"},
